@@ -483,7 +483,6 @@ pub fn run(mut run: Run) -> i32 {
         ];
         let centres: Vec<(f64, f64)> = vec![(0.5, 0.5), (0.5, 0.5), (617284.0, 3827160.8), (-14.0, -42.0)];
         let w: i64 = if quick { 24 } else { 96 };
-        let monos: Vec<MonotonicPolygons<f64>> = tris.iter().map(|t| MonotonicPolygons::from(Polygon::new(geo::LineString::from(vec![t[0], t[1], t[2], t[0]]), vec![]))).collect();
         let ww = (w * w) as usize;
         run.stage("monotone-ulp-windows", tris.len() * ww, |idx, acc| {
             let (ti, k) = (idx / ww, (idx % ww) as i64);
@@ -493,7 +492,10 @@ pub fn run(mut run: Run) -> i32 {
             acc.evals += 1;
             acc.class(format!("monotone ulp window {} inside-or-boundary{}", ti, want));
             acc.sample(idx, || json!({"triangle": format!("{:?}", tris[ti]), "query": [c.0, c.1], "exact": want}));
-            let got = monos[ti].intersects(&Coord { x: c.0, y: c.1 });
+            // (built per case: the subdivision object is not required to be shareable between threads)
+            let t = &tris[ti];
+            let mono = MonotonicPolygons::from(Polygon::new(geo::LineString::from(vec![t[0], t[1], t[2], t[0]]), vec![]));
+            let got = mono.intersects(&Coord { x: c.0, y: c.1 });
             if got != want {
                 acc.viol("MonotonicPolygons::intersects differs from exact point location on an ulp window next to a slanted edge".into(), idx, || json!({"triangle": format!("{:?}", tris[ti]), "query": [c.0, c.1], "bits": format!("{:016x} {:016x}", c.0.to_bits(), c.1.to_bits()), "expected": want, "got": got}));
             }
